@@ -16,6 +16,7 @@ import (
 )
 
 var failures atomic.Int64
+var failuresByFunc sync.Map // per function: once several obligations of a function failed, the rest get a short timeout
 
 var symRe = regexp.MustCompile(`[A-Za-z_$][A-Za-z0-9_$!]*`)
 
@@ -298,12 +299,14 @@ func Discharge(em *Emitter, obls []*Obligation, dir string, timeout int, workers
 				r = runSolver(context.Background(), solvers[0], file, min(2, timeout))
 			} else {
 				to := timeout
-				if failures.Load() >= 8 && to > 3 {
+				fcv, _ := failuresByFunc.LoadOrStore(o.Func, new(atomic.Int64))
+				fc := fcv.(*atomic.Int64)
+				if fc.Load() >= 8 && to > 3 {
 					to = 3 // many obligations already failed: the verdict is settled, do not spend minutes on the rest
 				}
 				r = Solve(file, to, true)
 				if r.answer != "unsat" {
-					failures.Add(1)
+					fc.Add(1)
 				}
 			}
 			o.Solver, o.Time = r.solver, r.dur
